@@ -281,8 +281,9 @@ struct Seq {
 		std::istringstream ls(text); std::vector<std::string> w; std::string t;
 		while (ls >> t) if (t != "!throw") w.push_back(t);
 		if (w.empty()) return false;
-		bool ok = perform(w);
 		std::string canon; for (auto &x : w) canon += (canon.empty() ? "" : " ") + x;
+		o << "try " << canon << std::endl;     // flushed before the call: a call that crashes or never returns is identifiable
+		bool ok = perform(w);
 		o << "op " << canon << (ok ? "" : " !throw") << "\n";
 		hist[w[0]]++;
 		if (!ok) hist["(refused)"]++;
@@ -451,7 +452,7 @@ static int runDesigns(const std::string &progfile, const std::string &outdir, co
 			auto dump = [&](Circuit &c, const std::string &what) {
 				out << "dump " << prog.id << "." << v << " " << boundary++ << " " << what << "\n";
 				dumpGraph(c, out, true);
-				out << "end\n";
+				out << "end" << std::endl;
 			};
 			try {
 				DesignScope design;
